@@ -1,3 +1,529 @@
+//! C43 — block aggregator: (a) fuel block -> protobuf -> fuel block preserves
+//! block, transactions and receipts; (b) `StorageDB::store_block` only accepts
+//! contiguous heights.
+mod gen;
+
+use fuel_core_block_aggregator_api::{
+    blocks::old_block_source::{
+        convertor_adapter::{
+            fuel_to_proto_conversions::proto_tx_from_tx,
+            proto_to_fuel_conversions::{fuel_block_from_protobuf, tx_from_proto_tx},
+            ProtobufBlockConverter,
+        },
+        BlockConverter,
+    },
+    db::{storage_db::StorageDB, table::Column, BlocksStorage},
+    protobuf_types::Block as ProtoBlock,
+};
+use fuel_core_storage::{
+    kv_store::{KeyValueInspect, Value},
+    structured_storage::test::InMemoryStorage,
+    transactional::{Changes, Modifiable},
+    Result as StorageResult,
+};
+use fuel_core_types::{
+    blockchain::block::Block,
+    fuel_tx::{Receipt, Transaction},
+};
+use futures::FutureExt;
+use gen::{build_case, factor_table, Factor};
+use mcx::*;
+use prost::Message;
+use serde::{Deserialize, Serialize};
+use serde_json::{json, Value as Json};
+use std::{
+    collections::BTreeMap,
+    sync::{Arc, Mutex},
+};
+
 fn main() {
-    mcx::machinery_failure("not built yet");
+    let cli = Cli::parse();
+    match cli.property.as_str() {
+        "C43" => c43(&cli),
+        other => machinery_failure(&format!("vh-aggr does not serve {other}")),
+    }
+}
+
+// ---------------------------------------------------------------------------
+// (a) conversions
+// ---------------------------------------------------------------------------
+
+fn json_diff(a: &Json, b: &Json, path: &mut Vec<String>) -> Option<(String, String, String)> {
+    use serde_json::Value::*;
+    match (a, b) {
+        (Object(x), Object(y)) => {
+            for (k, v) in x {
+                match y.get(k) {
+                    Some(w) => {
+                        path.push(k.clone());
+                        if let Some(d) = json_diff(v, w, path) {
+                            return Some(d);
+                        }
+                        path.pop();
+                    }
+                    None => return Some((format!("{}.{k}", path.join(".")), short(v), "<absent>".into())),
+                }
+            }
+            for k in y.keys() {
+                if !x.contains_key(k) {
+                    return Some((format!("{}.{k}", path.join(".")), "<absent>".into(), short(&y[k])));
+                }
+            }
+            None
+        }
+        (Array(x), Array(y)) if x.len() == y.len() && !x.iter().all(|v| v.is_number()) => {
+            for (i, (v, w)) in x.iter().zip(y).enumerate() {
+                path.push(format!("[{i}]"));
+                if let Some(d) = json_diff(v, w, path) {
+                    return Some(d);
+                }
+                path.pop();
+            }
+            None
+        }
+        _ if a == b => None,
+        _ => Some((path.join("."), short(a), short(b))),
+    }
+}
+
+fn short(v: &Json) -> String {
+    let s = v.to_string();
+    if s.len() > 140 {
+        format!("{}...({} chars)", &s[..140], s.len())
+    } else {
+        s
+    }
+}
+
+/// Path without array indices and without the enum-variant wrapper names.
+fn class_of(path: &str) -> String {
+    path.split('.').filter(|p| !p.starts_with('[') && !p.is_empty()).collect::<Vec<_>>().join(".")
+}
+
+fn tx_kind(tx: &Transaction) -> &'static str {
+    match tx {
+        Transaction::Script(_) => "Script",
+        Transaction::Create(_) => "Create",
+        Transaction::Mint(_) => "Mint",
+        Transaction::Upgrade(_) => "Upgrade",
+        Transaction::Upload(_) => "Upload",
+        Transaction::Blob(_) => "Blob",
+    }
+}
+
+fn receipt_kind(r: &Receipt) -> String {
+    let j = json!(r);
+    j.as_object().and_then(|o| o.keys().next().cloned()).unwrap_or_else(|| format!("{r:?}").split([' ', '{', '(']).next().unwrap_or("?").to_string())
+}
+
+fn tx_diff(kind: &str, want: &Transaction, got: &Transaction) -> Violation {
+    let (p, a, b) = json_diff(&json!(want), &json!(got), &mut vec![]).unwrap_or(("?".into(), "?".into(), "?".into()));
+    // drop the leading enum variant name ("Script.body.x" -> "body.x")
+    let cls = class_of(&p);
+    let cls = cls.strip_prefix(&format!("{kind}.")).unwrap_or(&cls).to_string();
+    viol(format!("roundtrip:{kind}:{cls}"), format!("{kind} transaction field {p}: original {a}, after the round trip {b}"))
+}
+
+/// The oracle for one block: convert, encode, decode, convert back, compare.
+fn check_roundtrip(block: &Block, receipts: &[Vec<Receipt>]) -> Result<(), Violation> {
+    // (1) the transaction seam on its own
+    for tx in block.transactions() {
+        let kind = tx_kind(tx);
+        let proto = proto_tx_from_tx(tx);
+        let back = tx_from_proto_tx(&proto).map_err(|e| viol(format!("convert-error:{kind}"), format!("tx_from_proto_tx failed on the output of proto_tx_from_tx: {e}")))?;
+        if &back != tx {
+            return Err(tx_diff(kind, tx, &back));
+        }
+    }
+    // (2) the whole block as the service does it: convert, protobuf-encode, decode, convert back
+    let bytes = ProtobufBlockConverter.convert_block(block, receipts).map_err(|e| viol("convert-error:block", format!("convert_block failed: {e}")))?;
+    let proto = ProtoBlock::decode(&*bytes).map_err(|e| viol("convert-error:decode", format!("protobuf decode of the encoded block failed: {e}")))?;
+    let (block2, receipts2) = fuel_block_from_protobuf(proto).map_err(|e| viol("convert-error:from-proto", format!("fuel_block_from_protobuf failed on a block produced by convert_block: {e}")))?;
+    if block.header() != block2.header() {
+        let (p, a, b) = json_diff(&json!(block.header()), &json!(block2.header()), &mut vec![]).unwrap_or(("?".into(), "?".into(), "?".into()));
+        return Err(viol(format!("roundtrip:header:{}", class_of(&p)), format!("header field {p}: original {a}, after the round trip {b}")));
+    }
+    if block.transactions().len() != block2.transactions().len() {
+        return Err(viol("roundtrip:tx-count", format!("{} transactions became {}", block.transactions().len(), block2.transactions().len())));
+    }
+    for (a, b) in block.transactions().iter().zip(block2.transactions()) {
+        if a != b {
+            return Err(tx_diff(tx_kind(a), a, b));
+        }
+    }
+    if &block2 != block {
+        return Err(viol("roundtrip:block-other", "block differs after the round trip although header and transactions are equal"));
+    }
+    if receipts.len() != receipts2.len() {
+        return Err(viol("roundtrip:receipt-list-count", format!("{} receipt lists became {}", receipts.len(), receipts2.len())));
+    }
+    for (ra, rb) in receipts.iter().zip(&receipts2) {
+        if ra.len() != rb.len() {
+            return Err(viol("roundtrip:receipt-count", format!("{} receipts became {}", ra.len(), rb.len())));
+        }
+        for (a, b) in ra.iter().zip(rb) {
+            if a != b {
+                let kind = receipt_kind(a);
+                let (p, x, y) = json_diff(&json!(a), &json!(b), &mut vec![]).unwrap_or(("?".into(), "?".into(), "?".into()));
+                let cls = class_of(&p);
+                let cls = cls.strip_prefix(&format!("{kind}.")).unwrap_or(&cls).to_string();
+                let extra = match a {
+                    Receipt::Panic { reason, .. } if cls.starts_with("reason") => format!(":{:?}", reason.reason()),
+                    _ => String::new(),
+                };
+                return Err(viol(format!("roundtrip:receipt:{kind}:{cls}{extra}"), format!("{kind} receipt field {p}: original {x}, after the round trip {y}")));
+            }
+        }
+    }
+    Ok(())
+}
+
+fn eval_case(factors: &[Factor], levels: &[u8]) -> Result<(), Violation> {
+    match guarded(|| {
+        let (block, receipts) = build_case(factors, levels);
+        check_roundtrip(&block, &receipts)
+    }) {
+        Ok(r) => r,
+        Err(p) => Err(viol("panic", format!("conversion panicked: {p}"))),
+    }
+}
+
+fn describe(factors: &[Factor], levels: &[u8]) -> Json {
+    let mut m = serde_json::Map::new();
+    for (f, l) in factors.iter().zip(levels) {
+        m.insert(f.name.to_string(), json!((f.describe)(*l)));
+    }
+    json!({"levels": levels, "factors": m})
+}
+
+/// Smallest failing case per signature, then greedily simplified (factor by
+/// factor towards its level 0) while the same signature keeps failing.
+struct Worst(Mutex<BTreeMap<String, (Vec<u8>, Violation)>>);
+
+impl Worst {
+    fn offer(&self, levels: &[u8], v: Violation) {
+        let mut g = self.0.lock().unwrap();
+        match g.get(&v.sig) {
+            Some((old, _)) if weight(old) <= weight(levels) => {}
+            _ => {
+                g.insert(v.sig.clone(), (levels.to_vec(), v));
+            }
+        }
+    }
+}
+
+fn weight(l: &[u8]) -> (usize, Vec<u8>) {
+    (l.iter().filter(|x| **x != 0).count(), l.to_vec())
+}
+
+fn minimise(factors: &[Factor], mut levels: Vec<u8>, sig: &str) -> (Vec<u8>, Violation) {
+    let mut v = eval_case(factors, &levels).expect_err("recorded case fails");
+    loop {
+        let mut changed = false;
+        for f in 0..levels.len() {
+            if levels[f] == 0 {
+                continue;
+            }
+            let mut t = levels.clone();
+            t[f] = 0;
+            if let Err(v2) = eval_case(factors, &t) {
+                if v2.sig == sig {
+                    levels = t;
+                    v = v2;
+                    changed = true;
+                }
+            }
+        }
+        if !changed {
+            return (levels, v);
+        }
+    }
+}
+
+fn run_case(factors: &[Factor], levels: &[u8], sw: &mut Sweep, worst: &Worst) {
+    let r = eval_case(factors, levels);
+    let nontrivial = if levels[gen::F_NTX] > 0 { Some(hash_of(&levels)) } else { None };
+    match r {
+        Ok(()) => sw.case(nontrivial, "roundtrip-ok", || describe(factors, levels), Ok(())),
+        Err(v) => {
+            let class = format!("MISMATCH {}", v.sig);
+            worst.offer(levels, v);
+            sw.case(nontrivial, &class, || describe(factors, levels), Ok(()));
+        }
+    }
+}
+
+/// All pairs of (factor, level) choices, each on top of every base case.
+fn pairwise_cases(factors: &[Factor], bases: &[Vec<u8>]) -> Vec<Vec<u8>> {
+    let mut out = vec![];
+    for base in bases {
+        out.push(base.clone());
+        for i in 0..factors.len() {
+            for j in (i + 1)..factors.len() {
+                for a in 0..factors[i].levels {
+                    for b in 0..factors[j].levels {
+                        let mut l = base.clone();
+                        l[i] = a;
+                        l[j] = b;
+                        out.push(l);
+                    }
+                }
+            }
+        }
+    }
+    out
+}
+
+fn conversions(cli: &Cli, run: &mut Run) -> Vec<FoundViolation> {
+    let factors = factor_table();
+    let bases = gen::bases(&factors);
+    let worst = Worst(Mutex::new(BTreeMap::new()));
+    let n_levels: usize = factors.iter().map(|f| f.levels as usize).sum();
+
+    // sweep 1: pairwise-exhaustive
+    let cases = pairwise_cases(&factors, &bases);
+    let sw = par_sweep(
+        "conversions/pairwise",
+        &format!(
+            "every pair of (factor, level) choices over {} factors / {} levels (transaction kind, two input kinds, two output kinds, two receipt kinds, all 64 policy subsets, numeric edge class {{distinct,0,1,MAX}}, byte-string length {{0,1,33}}, witness count, 32-byte id class, optional fields, storage slots, proof set, every PanicReason, script result, header edge class, number of transactions), each on top of {} base cases; oracle: block, transactions and receipts equal after convert_block -> protobuf bytes -> decode -> fuel_block_from_protobuf, and per transaction proto_tx_from_tx -> tx_from_proto_tx; non-trivial = the block carries at least one subject transaction; distinct by level vector",
+            factors.len(),
+            n_levels,
+            bases.len()
+        ),
+        cases.len(),
+        cli.threads,
+        |i, sw| run_case(&factors, &cases[i], sw, &worst),
+    );
+    run.add_sweep(sw);
+
+    // sweep 2: full product over the variant factors
+    let core: Vec<usize> = if cli.tier == Tier::Thorough {
+        vec![gen::F_TX, gen::F_IN1, gen::F_IN2, gen::F_OUT1, gen::F_OUT2, gen::F_RC1, gen::F_RC2, gen::F_NUM]
+    } else {
+        vec![gen::F_TX, gen::F_IN1, gen::F_OUT1, gen::F_RC1, gen::F_NUM, gen::F_LEN]
+    };
+    let sizes: Vec<usize> = core.iter().map(|f| factors[*f].levels as usize).collect();
+    let total: usize = sizes.iter().product();
+    let chunk = 4096usize;
+    let base = bases[0].clone();
+    let sw2 = par_sweep(
+        "conversions/product",
+        &format!("full cartesian product over the factors {:?} ({} cases) on top of the rich base case; same oracle", core.iter().map(|f| factors[*f].name).collect::<Vec<_>>(), total),
+        total.div_ceil(chunk),
+        cli.threads,
+        |ci, sw| {
+            for idx in (ci * chunk)..((ci + 1) * chunk).min(total) {
+                let mut l = base.clone();
+                let mut r = idx;
+                for (k, f) in core.iter().enumerate() {
+                    l[*f] = (r % sizes[k]) as u8;
+                    r /= sizes[k];
+                }
+                run_case(&factors, &l, sw, &worst);
+            }
+        },
+    );
+    run.add_sweep(sw2);
+
+    let mut found = vec![];
+    for (sig, (levels, _)) in worst.0.into_inner().unwrap() {
+        let (min_levels, v) = minimise(&factors, levels, &sig);
+        // confirm twice
+        let again = eval_case(&factors, &min_levels);
+        let ok = matches!(&again, Err(a) if a.sig == v.sig && a.msg == v.msg);
+        if !ok {
+            machinery_failure(&format!("conversion violation {sig} does not reproduce"));
+        }
+        found.push(FoundViolation { subject: "conversions".into(), sig: v.sig, msg: v.msg, history: describe(&factors, &min_levels), confirmed_by_second_replay: true });
+    }
+    found
+}
+
+// ---------------------------------------------------------------------------
+// (b) store_block
+// ---------------------------------------------------------------------------
+
+#[derive(Clone, Default)]
+struct Shared(Arc<Mutex<InMemoryStorage<Column>>>);
+
+impl KeyValueInspect for Shared {
+    type Column = Column;
+    fn get(&self, key: &[u8], column: Column) -> StorageResult<Option<Value>> {
+        self.0.lock().unwrap().get(key, column)
+    }
+}
+
+impl Modifiable for Shared {
+    fn commit_changes(&mut self, changes: Changes) -> StorageResult<()> {
+        self.0.lock().unwrap().commit_changes(changes)
+    }
+}
+
+impl Shared {
+    fn rows(&self) -> Vec<((u32, Vec<u8>), Vec<u8>)> {
+        let g = self.0.lock().unwrap();
+        let mut v: Vec<_> = g.storage().iter().map(|(k, v)| (k.clone(), v.to_vec())).collect();
+        v.sort();
+        v
+    }
+}
+
+struct StoreWorld {
+    db: StorageDB<Shared>,
+    handle: Shared,
+    current: Option<u32>,
+    blocks: BTreeMap<u32, Vec<u8>>,
+}
+
+#[derive(Clone, Debug, Serialize, Deserialize)]
+enum StoreOp {
+    Store { height: u32, payload: u8 },
+}
+
+struct StoreSubject {
+    name: String,
+    heights: Vec<u32>,
+}
+
+fn payload(height: u32, p: u8) -> Arc<[u8]> {
+    // what the aggregator really stores: a protobuf-encoded block of that height
+    let (block, receipts) = gen::simple_block(height, p);
+    ProtobufBlockConverter.convert_block(&block, &receipts).expect("convert")
+}
+
+impl Subject for StoreSubject {
+    type World = StoreWorld;
+    type Op = StoreOp;
+    fn name(&self) -> String {
+        self.name.clone()
+    }
+    fn fresh(&self) -> StoreWorld {
+        let handle = Shared::default();
+        StoreWorld { db: StorageDB::new(handle.clone()), handle, current: None, blocks: BTreeMap::new() }
+    }
+    fn clone_world(&self, w: &StoreWorld) -> Option<StoreWorld> {
+        let copy = Shared(Arc::new(Mutex::new(w.handle.0.lock().unwrap().clone())));
+        Some(StoreWorld { db: StorageDB::new(copy.clone()), handle: copy, current: w.current, blocks: w.blocks.clone() })
+    }
+    fn enabled(&self, _w: &StoreWorld) -> Vec<StoreOp> {
+        let mut v = vec![];
+        for &h in &self.heights {
+            for p in 0..2u8 {
+                v.push(StoreOp::Store { height: h, payload: p });
+            }
+        }
+        v
+    }
+    fn step(&self, w: &mut StoreWorld, op: &StoreOp) -> Result<String, Violation> {
+        let StoreOp::Store { height, payload: p } = op;
+        let bytes = payload(*height, *p);
+        // contiguous: the first block may have any height; afterwards only current+1
+        let contiguous = match w.current {
+            None => true,
+            Some(c) => c.checked_add(1) == Some(*height),
+        };
+        let r = w.db.store_block((*height).into(), &bytes).now_or_never().expect("store_block resolves instantly");
+        let obs = match (&r, contiguous) {
+            (Ok(()), true) => {
+                w.current = Some(*height);
+                w.blocks.insert(*height, bytes.to_vec());
+                "accepted"
+            }
+            (Err(_), false) => "rejected",
+            (Ok(()), false) => {
+                let tail = if w.current == Some(u32::MAX) { ":after-u32-max" } else { "" };
+                return Err(viol(
+                    format!("store:accepted-noncontiguous{tail}"),
+                    format!("store_block({height}) was accepted while the current height is {:?}; only {:?} is contiguous", w.current, w.current.and_then(|c| c.checked_add(1))),
+                ));
+            }
+            (Err(e), true) => {
+                return Err(viol("store:rejected-contiguous", format!("store_block({height}) was rejected ({e}) while the current height is {:?}", w.current)));
+            }
+        };
+        // state: reported height and stored blocks are exactly the accepted ones
+        let cur = w.db.get_current_height().map_err(|e| viol("store:height-read-error", format!("{e}")))?.map(u32::from);
+        if cur != w.current {
+            return Err(viol("store:current-height", format!("after {op:?} ({obs}) get_current_height() = {cur:?}, expected {:?}", w.current)));
+        }
+        let mut stored: BTreeMap<u32, Vec<u8>> = BTreeMap::new();
+        for ((col, k), v) in w.handle.rows() {
+            if col == Column::Blocks.as_u32() {
+                stored.insert(u32::from_be_bytes(k.as_slice().try_into().map_err(|_| viol("store:key-format", "block key is not 4 bytes"))?), v);
+            }
+        }
+        if stored != w.blocks {
+            return Err(viol(
+                "store:blocks-table",
+                format!("after {op:?} ({obs}) the block table holds heights {:?}, expected exactly the accepted blocks {:?} with their bytes", stored.keys().collect::<Vec<_>>(), w.blocks.keys().collect::<Vec<_>>()),
+            ));
+        }
+        Ok(obs.to_string())
+    }
+    fn canon(&self, w: &StoreWorld) -> Vec<u8> {
+        let mut out = vec![];
+        for ((c, k), v) in w.handle.rows() {
+            out.extend_from_slice(&c.to_le_bytes());
+            out.extend_from_slice(&(k.len() as u32).to_le_bytes());
+            out.extend_from_slice(&k);
+            out.extend_from_slice(&(v.len() as u32).to_le_bytes());
+            out.extend_from_slice(&v);
+        }
+        out.extend_from_slice(format!("{:?}", w.current).as_bytes());
+        out
+    }
+    fn interesting(&self, _op: &StoreOp, obs: &str) -> bool {
+        obs == "rejected"
+    }
+    fn required_labels(&self) -> Vec<String> {
+        vec!["Store".into()]
+    }
+}
+
+fn c43(cli: &Cli) {
+    let store_subjects = vec![
+        StoreSubject { name: "store_block[heights 0..=3]".into(), heights: vec![0, 1, 2, 3] },
+        StoreSubject { name: "store_block[heights 0,1,MAX-1,MAX]".into(), heights: vec![0, 1, u32::MAX - 1, u32::MAX] },
+    ];
+    if let Some(path) = &cli.replay {
+        let rf = load_replay(path);
+        if rf.subject == "conversions" {
+            let factors = factor_table();
+            let levels: Vec<u8> = serde_json::from_value(rf.history["levels"].clone()).unwrap_or_else(|e| machinery_failure(&format!("bad replay: {e}")));
+            if levels.len() != factors.len() {
+                machinery_failure("replay: level vector does not match the factor table");
+            }
+            println!("replay: case {}", describe(&factors, &levels));
+            match eval_case(&factors, &levels) {
+                Ok(()) => {
+                    println!("replay: round trip preserved the block");
+                    std::process::exit(0)
+                }
+                Err(v) => {
+                    println!("replay: {} / {}", v.sig, v.msg);
+                    println!("VIOLATION property=C43 replay=(replayed)");
+                    std::process::exit(1)
+                }
+            }
+        }
+        for s in &store_subjects {
+            if s.name() == rf.subject {
+                replay_and_exit(s, &rf);
+            }
+        }
+        machinery_failure("replay: unknown subject");
+    }
+    let mut run = Run::new(cli, "exploration");
+    let found = conversions(cli, &mut run);
+    for f in found {
+        run.extra_violations.push(f);
+    }
+    let depth = cli.tier.pick(4, 5);
+    for s in &store_subjects {
+        let r = explore(s, &Bounds::new(depth, cli).wall(cli.tier.pick(20, 300)));
+        run.add(r);
+    }
+    run.assume("blocks are well-formed: header generated fields derive from the transactions and from the message ids of non-reverted receipts (the executor's rule), Create storage slots are sorted, unset policies are zero");
+    run.assume("first stored block may have any height (that is what the code and its tests define); afterwards contiguous means current+1, and nothing is contiguous after u32::MAX");
+    run.finish();
 }
